@@ -92,14 +92,14 @@ theorem convU_count : ∀ fuel,
         · simp at h
         · split at h
           · simp at h
-          · rename_i hc0
-            split at h
+          · split at h
             · simp at h
-            · simp at h
-            · rename_i v c1 hv
+            · rename_i hc0
               split at h
               · simp at h
-              · obtain ⟨a1, a2⟩ := ihV _ _ _ _ _ hv
+              · simp at h
+              · rename_i v c1 hv
+                obtain ⟨a1, a2⟩ := ihV _ _ _ _ _ hv
                 obtain ⟨b1, b2⟩ := ihP _ _ _ _ _ _ h
                 refine ⟨by omega, ?_⟩
                 rw [b2]
